@@ -147,6 +147,8 @@ type Exec struct {
 	recvDepth int
 	recoverVal string
 	recovered  bool
+	tmCache    *tmInfo
+	ghostTypes map[string]types.Type
 }
 
 func (e *Exec) note(format string, a ...interface{}) {
@@ -205,6 +207,11 @@ func (e *Exec) heapKey(structT types.Type, field int) (string, string) {
 }
 
 func (e *Exec) cellKey(t types.Type) (string, string) {
+	// an array addressed through a pointer lives in the element memory, so that
+	// slicing it (u[:]) yields a slice that truly aliases the array
+	if arr, ok := t.Underlying().(*types.Array); ok {
+		return e.elemKey(arr.Elem())
+	}
 	srt := e.sc.sortOf(t)
 	return "M|" + sortTag(srt), fmt.Sprintf("(Array Int %s)", srt)
 }
